@@ -123,6 +123,14 @@ def shapes():
     res['extensions-overlapping-server-name'] = (TlsExtensionsClient, overlapping(0, lambda ll: b'\x80\x80\x00' + (ll % 65536).to_bytes(2, 'big')))
     for t, nm in ((10, 'groups'), (13, 'signature-algorithms'), (16, 'alpn'), (51, 'key-share')):
         res['extensions-overlapping-%s' % nm] = (TlsExtensionsClient, overlapping(t, lambda ll: (ll % 65536 & 0xfffe).to_bytes(2, 'big')))
+    # a client hello whose suite list holds many ordinary suites followed by as many repeated signalling suites, and one whose
+    # list is signalling suites only in front of one ordinary suite
+    def hello_with_suites(codes):
+        body = b'\x03\x03' + bytes(32) + b'\x00' + (2 * len(codes)).to_bytes(2, 'big') + b''.join(c.to_bytes(2, 'big') for c in codes) + b'\x01\x00'
+        return b'\x01' + len(body).to_bytes(3, 'big') + body
+    known = [int(m.value.code) for m in suites if int(m.value.code) not in (0x5600, 0x00ff)][:64]
+    res['client-hello-repeated-signalling-suites'] = (TlsHandshakeClientHello, lambda n: hello_with_suites([known[i % len(known)] for i in range(n // 2)] + [0x5600, 0x00ff] * (n // 4)))
+    res['client-hello-signalling-suites-first'] = (TlsHandshakeClientHello, lambda n: hello_with_suites([0x00ff, 0x5600] * (n // 2) + [known[0]]))
     # a certificate in the place of the signing key of a certificate, n / 8 times over
     from cryptoparser.ssh.key import SshHostPublicKeyVariant, SshHostCertificateV01EDDSA
     certs = [v for c, vs in sweep.library_vectors().items() if c is SshHostCertificateV01EDDSA for v in vs]
